@@ -4,7 +4,7 @@ entry_extend(
     "C09", modules=["contracts.c09_ext"],
     E1=[], LEMMAS=False,
     PROVIDERS=["contracts.c09_ext.provider_dispatch", "contracts.c09_ext.provider_threading",
-               "contracts.c09_ext.provider_cyclic"],
+               "contracts.c09_ext.provider_cyclic", "contracts.c09_ext.provider_sum"],
     TRUSTED=[
         "provider_dispatch executes the REAL ast of _TN1D_COMPRESS_METHODS and tensor_network_1d_compress (compiled unchanged, "
         "annotations unevaluated) in a namespace of recording stubs: the method functions themselves are NOT executed there; "
@@ -22,8 +22,17 @@ entry_extend(
         "(1 <= i <= L), each with the options it receives; leaf: left_/right_canonize compress nothing; compress uses the PROVED post-condition "
         "of the periodic sweeps (stated from a zero counter) relative to the current counter -- the leaf effect is additive; SKOLEM BOND: every "
         "obligation is stated for one arbitrary bond k of the ring (k = L-1 is the closing bond)",
+        "provider_sum (e2, sympy) compiles the REAL FunctionDef of tnag/core.py::tensor_network_ag_sum unchanged and runs it on "
+        "recording stand-ins (chains of 1-3 sites; create_lazy_edge_map, Tensor.reindex / negate_ / modify(apply=) / "
+        "direct_product_, TensorNetwork.copy / compress are stand-ins with their documented effect: reindex returns a new "
+        "tensor, negate_ flips the sign of the data, modify(apply=f) replaces the data by f(data), copy keeps the stored "
+        "exponent); DENOTATION: a network stands for 10^exponent * product of its site tensors and the site-wise direct sum "
+        "stands for the sum of the two products; sympy decides log10(sign * f) - (eb - ea) == 0 for real symbols ea, eb; on "
+        "concrete float exponents the same identity is checked to 1e-9 (double rounding of 10**x)",
     ],
     ASSUMPTIONS=[
+        "tensor_network_ag_sum: exponents real symbols / equal / 0 and 0.0 (an unset exponent IS 0.0: TensorNetwork.__init__ "
+        "stores 0.0, the attribute is never None) / concrete floats; negate x inplace x compress x 1-3 sites exhaustively",
         "periodic sweeps: cyclic=True, L >= 2 symbolic, bra=None, start=None, stop None | int inside the ring; options none | "
         "{max_bond, cutoff} symbolic; compress: form None | 'left' | 'right' | 'flat' | int centre 0 <= c < L (both sides of "
         "L // 2); the canonical form promised for a periodic chain is NOT claimed (only which bonds are compressed, how often, "
@@ -43,4 +52,6 @@ entry_extend(
                 "ast of every function of tn1d/compress.py that declares them, to reach every truncating leaf unchanged "
                 "(two-stage methods: the oversampling cap only in the first stage, the caller's cap in the final direct sweep). On PERIODIC chains of symbolic length, left_compress / right_compress "
                 "/ compress hand every bond of the ring -- the closing bond included -- to exactly one compression call (form "
-                "'flat': the closing bond to two) with the caller's max_bond / cutoff unchanged, for every form and centre.")
+                "'flat': the closing bond to two) with the caller's max_bond / cutoff unchanged, for every form and centre. The sum of two networks "
+                "with stored exponents ea, eb keeps er = ea and scales exactly one tensor of B by +/- 10^(eb - ea), for all real "
+                "exponents (sympy).")
